@@ -555,9 +555,16 @@ class SpecStream(_InheritStream):
 
 # ---------------------------------------------------------------------------------------------
 # syntactic flattening, written independently of the Lean `flattenSyn`
-def flatten_syn(chain):
+class _TooBig(Exception):
+    pass
+
+
+def flatten_syn(chain, budget=4000):
     """chain: templates (lists of tops) leaf first -> (plain tree, finite). Plain nodes:
-    ["t",s] ["v",x] ["l",v,n,body] ["scope",body] ["outer",body] ["raise",cls]."""
+    ["t",s] ["v",x] ["l",v,n,body] ["scope",body] ["outer",body] ["raise",cls].
+    A chain without a finite flattening that refers to a block twice per level has a flattened template of size
+    2^limit; such cases are left out of the stream (budget on the number of nodes)."""
+    count = [0]
     defs: dict = {}
     for tops in chain:
         for b in blocks_of([t for t in tops if t[0] != "x"]):
@@ -568,6 +575,9 @@ def flatten_syn(chain):
         out = []
         for it in items:
             k = it[0]
+            count[0] += 1
+            if count[0] > budget:
+                raise _TooBig()
             if k in ("t", "v"):
                 out.append(it)
             elif k == "s":
@@ -636,15 +646,26 @@ class SynStream(_InheritStream):
 
     name = "syn"
 
+    @staticmethod
+    def usable(c) -> bool:
+        ch = chain_of(c)
+        if ch is None or ch[0]:
+            return False
+        try:
+            flatten_syn(ch[1])
+        except _TooBig:
+            return False
+        return True
+
     def cases(self, ctx):
-        out = [c for c in PoolStream().cases(ctx) if chain_of(c) is not None and not chain_of(c)[0]]
+        out = [c for c in PoolStream().cases(ctx) if self.usable(c)]
         rng = ctx.rng_for("syn")
         n = ctx.scale(500, 8000)
         tries = 0
         while n > 0 and tries < 200000:
             tries += 1
             c = gen_chain(rng)
-            if c["kind"] == "plain" and chain_of(c) is not None and not chain_of(c)[0]:
+            if c["kind"] == "plain" and self.usable(c):
                 out.append(c)
                 n -= 1
         return out
